@@ -151,6 +151,10 @@ def exact_lookup(outs, arg_name, arg_ty, rows, default, decode):
     for o in outs:
         if o.kind != "return":
             return "a path ends with %s (%s)" % (o.kind, o.info)
+        pp = [k for k, v in o.state.log if isinstance(k, tuple) and k[0] == "ppoint"]
+        if pp:
+            # not a verdict about the function: this rule follows binary_search* and range pre-checks only
+            raise ip.AnalysisError("the lookup positions itself with partition_point on %s: which entry that selects is not modelled by this rule" % (pp[0][1],))
         br = [v for k, v in o.state.log if isinstance(k, tuple) and k[0] == "bsearch"]
         other = [k for k, v in o.state.log if isinstance(k, tuple) and k[0] in ("ord", "bool", "unproved-cmp")]
         if other:
